@@ -62,7 +62,74 @@ def summarize(lib, q, pick=None):
     if not fs:
         raise AnalysisError('anchor vanished: %s' % q)
     f = fs[0]
-    return f, SymExec(fold_global=lib.global_value).run(q, f.body, {})
+    return f, summariser(lib).run(q, f.body, {})
+
+
+API_PREFIXES = ('for', 'to', 'is', 'print', 'compare', 'convert', 'get', 'operator')
+
+
+def summariser(lib):
+    """E-GNF summariser for the conversion functions: ?: is split into paths, and a call to a small helper that is not
+    part of the conversion API itself (a private floor-division helper, a forwarding wrapper) is summarised in place, so
+    that the rules see what is computed, not how it is distributed over locals and helpers."""
+    sx = SymExec(fold_global=lib.global_value)
+    sx.split_cond = True
+
+    def inliner(name, nargs):
+        short = name.split('::')[-1]
+        if not name.startswith('ace_time::') or short.startswith(API_PREFIXES) or short[:1].isupper():
+            return None
+        for g in lib.fns(name):
+            if len(g.params) == nargs and g.body and len(list(walk_stmts(g.body))) <= 12 and not any(x.k == 'loop' for x in walk_stmts(g.body)):
+                return g
+        return None
+    sx.inliner = inliner
+    return sx
+
+
+def floor_days(lib, q):
+    """The function named q turns epoch seconds into (days, seconds of the day): on every path that is not the sentinel's,
+    the value handed to LocalDate::forEpochDays must be floor(es / 86400) and the value handed to LocalTime::forSeconds
+    (when there is one) es - 86400 * days.  Both are read off the path summary and *evaluated* on instants around day
+    boundaries on both sides of the epoch and at the ends of the 32-bit range.  -> (ok, why, cases)"""
+    from .gnf import eval_formula, eval_poly, arith_assign
+    f, s = summarize(lib, q)
+    es = f.params[0][0]
+    inv = lib.const('ace_time::LocalDate::kInvalidEpochSeconds')
+    samples = set()
+    for k in (-24855, -24854, -10958, -366, -2, -1, 0, 1, 2, 365, 10957, 24854):
+        for r in (0, 1, 2, 43200, 86398, 86399):
+            v = k * 86400 + r
+            if -(1 << 31) < v < (1 << 31):
+                samples.add(v)
+    samples.update({-(1 << 31) + 1, (1 << 31) - 1})
+    samples.discard(inv)
+    n = 0
+    for v in sorted(samples):
+        asg = arith_assign({es: v})
+        try:
+            hits = [p for p in s.paths if eval_formula(p[0], asg)]
+        except (KeyError, TypeError) as ex:
+            return False, 'the path conditions depend on %s, not only on the epoch seconds' % (ex,), n
+        if len(hits) != 1 or hits[0][1] != 'return' or hits[0][2] is None:
+            return False, 'no single returning path for epoch seconds %d' % v, n
+        res = _P(hits[0][2])
+        days = fn_atoms(res, 'LocalDate::forEpochDays')
+        secs = fn_atoms(res, 'LocalTime::forSeconds')
+        if len(days) != 1:
+            return False, 'epoch seconds %d: the result is not built from LocalDate::forEpochDays(days)' % v, n
+        try:
+            d = eval_poly(_P(days[0][2][0]), asg)
+            sec = eval_poly(_P(secs[0][2][0]), asg) if secs else None
+        except (KeyError, TypeError) as ex:
+            return False, 'the day count depends on %s, not only on the epoch seconds' % (ex,), n
+        n += 1
+        if d != v // 86400:
+            return False, ('epoch seconds %d: %d days are handed to forEpochDays, the floor quotient by 86400 is %d%s'
+                           % (v, d, v // 86400, ' (a negative multiple of 86400 is midnight, not the day before)' if v < 0 and v % 86400 == 0 else '')), n
+        if secs and sec != v - 86400 * (v // 86400):
+            return False, 'epoch seconds %d: %d seconds of the day are handed to LocalTime::forSeconds, expected %d = es - 86400 * days' % (v, sec, v - 86400 * (v // 86400)), n
+    return True, '', n
 
 
 def lin(p):
@@ -196,14 +263,19 @@ def run(cfg):
                       ('ace_time::ZonedDateTime::convertToTimeZone', 'ZonedDateTime::forEpochSeconds')):
         f, s = summarize(lib, q)
         okp = False
+        # "the instant of this": this->toEpochSeconds(), or what that function itself forwards to
+        cls_q = q.rsplit('::', 1)[0]
+        own = Poly.atom(('fn', cls_q + '::toEpochSeconds', (Poly.atom(('sym', 'this')).key(),)))
+        instants = {own}
+        _f0, s0 = summarize(lib, cls_q + '::toEpochSeconds')
+        if len(s0.paths) == 1 and s0.paths[0][1] == 'return' and s0.paths[0][2] is not None and not s0.paths[0][3]:
+            instants.add(_P(s0.paths[0][2]))
         for g, kind, res, eff in s.paths:
             if kind == 'return' and res is not None:
                 a = _atom(_P(res))
                 if a and a[0] == 'fn' and a[1].endswith(callee) and len(a[2]) == 2:
-                    arg = _atom(_P(a[2][0]))
                     tgt = _atom(_P(a[2][1]))
-                    if arg and arg[0] == 'fn' and arg[1].endswith('::toEpochSeconds') and _atom(_P(arg[2][0])) == ('sym', 'this') \
-                            and tgt == ('sym', f.params[0][0]):
+                    if _P(a[2][0]) in instants and tgt == ('sym', f.params[0][0]):
                         okp = True
         ob('R2', f.name, f.loc, okp, 'does not return %s(this->toEpochSeconds(), %s) with the instant unmodified' % (callee, f.params[0][0]))
     # R3 compareTo
@@ -275,37 +347,28 @@ def run(cfg):
     # R5 floor division twins
     fa = lib.fn('ace_time::LocalDate::forEpochSeconds')
     fb = lib.fn('ace_time::LocalDateTime::forEpochSeconds')
-    qa = _days_expr(fa)
-    qb = _days_expr(fb)
-    ob('R5', 'LocalDate::forEpochSeconds~LocalDateTime::forEpochSeconds', fa.loc, qa is not None and qb is not None and qa == qb,
-       'the two floor divisions differ: %r vs %r' % (qa, qb))
-    es = fa.params[0][0]
-    E_ = Poly.atom(('sym', es))
-    want_cond = None
-    if qa is not None:
-        a = _atom(qa)
-        okq = False
-        if a and a[0] == 'cond':
-            neg, pos = _P(a[2]), _P(a[3])
-            okq = pos == Poly.atom(('tdiv', E_.key(), Poly.const(86400).key())) and \
-                neg == Poly.atom(('tdiv', (E_ + Poly.const(1)).key(), Poly.const(86400).key())) - Poly.const(1)
-        ob('R5', 'LocalDate::forEpochSeconds:floor', fa.loc, okq, 'quotient is %r, not (es < 0) ? (es + 1) / 86400 - 1 : es / 86400' % qa)
-    # seconds = es - 86400 * days ; toEpochSeconds = days * 86400 + seconds
-    secs = None
-    for st in walk_stmts(fb.body):
-        if st.k == 'decl' and st.a[0] == 'seconds' and st.a[2] is not None:
-            secs = Canon(env={'days': Poly.atom(('sym', 'D'))})(st.a[2])
+    oka, whya, na = floor_days(lib, 'ace_time::LocalDate::forEpochSeconds')
+    okb, whyb, nb = floor_days(lib, 'ace_time::LocalDateTime::forEpochSeconds')
+    R.instance('R5', 'LocalDate::forEpochSeconds:floor', fa.loc, '%d instants evaluated' % na)
+    if not oka:
+        R.violation('R5', 'LocalDate::forEpochSeconds:floor', fa.loc, whya)
+    # the date part and the date-time part split an instant into the same day (both are the floor quotient) and the
+    # seconds of the day are what toEpochSeconds() adds back: days * 86400 + seconds
+    R.instance('R5', 'LocalDate::forEpochSeconds~LocalDateTime::forEpochSeconds', fb.loc, '%d instants evaluated' % nb)
+    if not okb:
+        R.violation('R5', 'LocalDate::forEpochSeconds~LocalDateTime::forEpochSeconds', fb.loc, whyb)
     f2, s2 = summarize(lib, 'ace_time::LocalDateTime::toEpochSeconds')
     rec = None
     for g, kind, res, eff in s2.paths:
         if kind == 'return' and res is not None and not _P(res).is_const():
             rec = _P(res)
-    okp = secs == Poly.atom(('sym', fb.params[0][0])) - Poly.const(86400) * Poly.atom(('sym', 'D'))
-    if okp and rec is not None:
+    okp = False
+    if rec is not None:
         l = lin(rec)
-        okp = l is not None and sorted(l[0].values()) == [1, 86400] and l[1] == 0
-    ob('R5', 'LocalDateTime::forEpochSeconds~toEpochSeconds', fb.loc, okp and rec is not None,
-       'seconds = %r and toEpochSeconds = %r do not pair as es - 86400*days / days*86400 + seconds' % (secs, rec))
+        okp = l is not None and sorted(l[0].values()) == [1, 86400] and l[1] == 0 and \
+            any('toEpochDays' in repr(Poly.atom(t)) and k == 86400 for t, k in l[0].items()) and any('toSeconds' in repr(Poly.atom(t)) and k == 1 for t, k in l[0].items())
+    ob('R5', 'LocalDateTime::forEpochSeconds~toEpochSeconds', f2.loc, okp,
+       'toEpochSeconds = %r does not recompose days * 86400 + seconds of the day' % (rec,))
     return R
 
 
